@@ -87,13 +87,14 @@ func RType(t int) reflect.Type {
 	return ifaceTypes[t-NumConcrete]
 }
 
-func IsIface(t int) bool      { return t >= NumConcrete && t < NumTypes }
+func IsIface(t int) bool { return t >= NumConcrete && t < NumTypes }
 
 // TVoid is the pseudo type id of struct{}: a named initializer function is a
 // keyed service of that type (godi stores an empty struct for it).
 const TVoid = NumTypes
 
 var voidType = reflect.TypeOf(struct{}{})
+
 func IsDisposable(t int) bool { return t < NumD }
 
 func TypeName(t int) string {
